@@ -1,11 +1,11 @@
 """C18 -- Direction indicators select the same field descriptors in all three stages."""
 from core import rng_for, mk, bits_of, L, R, randbits, Buffer
 from schc_run import Batch, case_compress, case_decompress, case_match, obs_bits, with_timeout, parse_model_bits
-from schc_util import gen_rfd, n_rule, n_pdesc, rules_tokens, tb, DIRC, ref_compress
+from schc_util import gen_rfd, n_rule, n_pdesc, rules_tokens, tb, DIRC, ref_compress, ref_rule_applies
 from gens import gen_parsed, b2s
 from microschc.rfc8724extras import Context
 from microschc.manager import ContextManager
-from microschc.rfc8724 import DirectionIndicator as DI, RuleDescriptor
+from microschc.rfc8724 import DirectionIndicator as DI, RuleDescriptor, MatchingOperator as MO, CompressionDecompressionAction as CDA
 
 RULE = ('rules in which a random subset of fields (every position) carries separate Up and Dw descriptors with different target '
         'values and actions (one of them matching the packet, the other one a different kind, possibly not matching), the other '
@@ -90,9 +90,18 @@ def run(rep, tier, seed):
         for f_, rf in zip([x for x in pd.fields for _ in (0,)], []):
             pass
         both = []
+        spoil = rnd.choice([None, None, DI.UP, DI.DOWN])     # in some rules one direction's alternatives do NOT match the packet
         for f_ in pd.fields:
             if rnd.random() < 0.4:
-                both += [gen_rfd(rnd, f_, rnd.choice(KINDS), DI.UP), gen_rfd(rnd, f_, rnd.choice(KINDS), DI.DOWN)]
+                pair = [gen_rfd(rnd, f_, rnd.choice(KINDS), DI.UP), gen_rfd(rnd, f_, rnd.choice(KINDS), DI.DOWN)]
+                for alt in pair:
+                    if spoil is not None and alt.direction == spoil and f_.value.length > 0 and rnd.random() < 0.5:
+                        fb = bits_of(f_.value)
+                        alt.target_value = mk(('1' if fb[0] == '0' else '0') + fb[1:])
+                        alt.matching_operator = MO.EQUAL
+                        alt.compression_decompression_action = CDA.NOT_SENT
+                        alt.length = len(fb)
+                both += pair
             else:
                 both.append(gen_rfd(rnd, f_, rnd.choice(KINDS), DI.BIDIRECTIONAL))
         rule = RuleDescriptor(id=mk(randbits(rnd, rnd.randint(1, 12)), rnd.choice([L, R])), field_descriptors=both)
@@ -100,8 +109,9 @@ def run(rep, tier, seed):
         cm = ContextManager(Context(id='c', description='', interface_id='i', parser_id=stack, ruleset=[rule]))
         for d in (DI.UP, DI.DOWN, DI.DOWN, DI.UP):
             out = obs_bits(with_timeout(lambda: cm.compress(Buffer(pkt, len(pkt) * 8), direction=d)))
-            want = ref_compress(dict(n_pdesc(pd), dir=DIRC[d]), nr, DIRC[d])
-            fails = [] if out == ('OK', want) else ['long-lived manager, direction %s: compress gives %s, expected %s' % (DIRC[d], str(out)[:100], (want or 'None')[:100])]
+            npd_d = dict(n_pdesc(pd), dir=DIRC[d])
+            want = ('OK', ref_compress(npd_d, nr, DIRC[d])) if ref_rule_applies(npd_d, nr) else ('EXC', 'RuleDescriptorMatchError')
+            fails = [] if out == want else ['long-lived manager, direction %s: compress gives %s, expected %s' % (DIRC[d], str(out)[:100], str(want)[:100])]
             line = ' '.join(['S', 'cmcompressp', stack, tb(b2s(pkt)), DIRC[d], 'F'] + rules_tokens([nr]))
             b.add('manager-both-directions:compress', line, out, parse_model_bits, fails, dict(layer='schc', op='cmcompress', stack=stack, packet=pkt.hex(), rules=[nr], direction=DIRC[d]), key=(line, d, i))
             if out[0] == 'OK' and isinstance(out[1], str):
